@@ -90,6 +90,7 @@ structure Stmt where
   need   : Nat := 1           -- operand-stack slots the statement needs above the current top
   pre    : Nat := 0           -- values pushed by the code emitted BEFORE its compile error surfaces
   inFn   : Bool := false      -- its compile error surfaces inside a function body
+  junk   : Bool := false      -- the code emitted before its compile error also holds stack-neutral instructions
   fdefs  : List Nat := []     -- global-sensitive functions whose constants it adds to the main code
   calls  : List Nat := []     -- global-sensitive functions it may call when executed
   deriving Repr, DecidableEq, Inhabited
@@ -154,7 +155,7 @@ def compileStmts (y : Syms) : List Stmt → COut
     if s.resolves y then
       let r := compileStmts (y.add s) rest
       ⟨frag s ++ sep s rest.isEmpty ++ r.code, r.syms, s.fdefs ++ r.fns, r.res⟩
-    else ⟨List.replicate s.pre (.push 0), y, [], .rejected s.inFn⟩
+    else ⟨List.replicate s.pre (.push 0) ++ (if s.junk then [.push 0, .pop] else []), y, [], .rejected s.inFn⟩
 
 structure Comp where
   code  : List AIns := []
@@ -281,7 +282,7 @@ def wholeOf (ps : List (List Stmt)) : Piece := .stmts ps.flatten
     statement, before any instruction was emitted, and not inside a function body -/
 def rejectsCleanly : List Stmt → Bool
   | [] => true
-  | s :: _ => s.pre == 0 && !s.inFn
+  | s :: _ => s.pre == 0 && !s.inFn && !s.junk
 
 /-- G4 `FailingPieceDeclaresNothingLater`: from its failing statement on, a piece declares no name -/
 def declaresAfterFailure : List Stmt → Bool
@@ -321,7 +322,7 @@ def pieceGuard (g : GSt) : Piece → Bool
       -- G1: the first statement is the one that does not compile
       (match l with
        | [] => true
-       | s :: _ => !s.resolves g.syms && s.pre == 0 && !s.inFn)
+       | s :: _ => !s.resolves g.syms && s.pre == 0 && !s.inFn && !s.junk)
 
 def GSt.next (g : GSt) : Piece → GSt
   | .bad => g
@@ -358,7 +359,7 @@ def violatedGuardsFrom (g0 : GSt) (h : List Piece) : List String :=
             (match l with
              | [] => []
              | s :: _ =>
-               if !s.resolves g.syms && s.pre == 0 && !s.inFn then []
+               if !s.resolves g.syms && s.pre == 0 && !s.inFn && !s.junk then []
                else match firstBad g.syms l with
                  | some b => if b.inFn then ["stuck-compiler"] else ["leaked-code"]
                  | none => [])
@@ -394,5 +395,320 @@ def GSt.init (host : List Nat) : GSt := { syms := hostSyms host }
 
 /-- the decidable guard of `C18_partial_host`: `guard`, evaluated with the host's names defined -/
 def guardHost (host : List Nat) (h : List Piece) : Bool := guardFrom (GSt.init host) h
+
+/-! ## Layer 3: compile-only state of the ONE compiler the pieces share
+
+While a construct is being compiled the compiler keeps state that exists for the compilation
+only: `Code.pipeActive` (the stages of a pipe: calls are emitted as `Partial`), `Code.loops`
+(the loop `break`/`continue` target), `Code.symbols` (the block scope), `loop.pendingSwitchValues`
+and `Compiler.current` (the code object of the function being compiled).  The REPL hands every
+piece to the SAME compiler, so whatever a REJECTED piece leaves set is the state the next
+piece is compiled in.  A piece's compilation is abstracted to its sequence of events:
+`enter m` (the compile function of a construct sets mark `m`), `leave` (it returns normally and
+resets it), `emit k sens` (an instruction is emitted whose form depends on which of the marks
+`sens` are set, e.g. a call is sensitive to `pipe`), `err` (a compile error: every compile
+function on the Go stack returns the error; the marks whose reset is DEFERRED are restored,
+the others stay). -/
+
+inductive Mark where
+  | pipe | loop | block | switchVal | fn
+  deriving Repr, DecidableEq, Inhabited
+
+/-- per compile-only field of compiler.go: is it restored on the error path (every function
+    that sets it resets it in a deferred function)?  Tied to the sources by `Ties.lean`. -/
+def compileOnlyRestores : List (String × Bool) :=
+  [("current", false), ("loops", true), ("pendingSwitchValues", true), ("pipeActive", true), ("symbols", true)]
+
+def Mark.field : Mark → String
+  | .pipe => "pipeActive"
+  | .loop => "loops"
+  | .block => "symbols"
+  | .switchVal => "pendingSwitchValues"
+  | .fn => "current"
+
+/-- the mark is restored when a compile error unwinds through the construct that set it -/
+def Mark.restored (m : Mark) : Bool := (compileOnlyRestores.lookup m.field).getD false
+
+inductive CEv where
+  | enter (m : Mark)
+  | leave
+  | emit (k : Nat) (sens : List Mark)
+  | err
+  deriving Repr, DecidableEq, Inhabited
+
+structure MOut where
+  own  : List Mark                  -- marks this Compile call set and left set
+  code : List (Nat × List Mark)     -- emitted instructions with the marks (of `sens`) they were emitted under
+  ok   : Bool
+  deriving Repr, DecidableEq, Inhabited
+
+/-- one call of Compile: `inh` = marks left set by earlier calls, `own` = marks set by this call -/
+def compileEvs (inh : List Mark) : List Mark → List CEv → MOut
+  | own, [] => ⟨own, [], true⟩
+  | own, .enter m :: rest => compileEvs inh (m :: own) rest
+  | own, .leave :: rest => compileEvs inh own.tail rest
+  | own, .emit k sens :: rest =>
+    let r := compileEvs inh own rest
+    ⟨r.own, (k, sens.filter (fun m => own.contains m || inh.contains m)) :: r.code, r.ok⟩
+  | own, .err :: _ => ⟨own.filter (fun m => !m.restored), [], false⟩
+
+/-- the pieces of a history, compiled one after the other by the same compiler (Impl) -/
+def marksRun (inh : List Mark) : List (List CEv) → List MOut
+  | [] => []
+  | evs :: rest =>
+    let r := compileEvs inh [] evs
+    r :: marksRun (r.own ++ inh) rest
+
+/-- Spec: every piece is compiled as by a compiler that has seen no rejected piece -/
+def marksSpec (h : List (List CEv)) : List MOut := h.map (compileEvs [] [])
+
+/-- `enter`/`leave` are bracketed up to the first `err` (what a recursive-descent compiler produces) -/
+def balancedFrom : Nat → List CEv → Bool
+  | d, [] => d == 0
+  | d, .enter _ :: rest => balancedFrom (d + 1) rest
+  | d, .leave :: rest => d > 0 && balancedFrom (d - 1) rest
+  | d, .emit _ _ :: rest => balancedFrom d rest
+  | _, .err :: _ => true
+
+/-- guard of `marks_partial`: when the error surfaces, every mark set by this call is one that is
+    restored on the error path (as the code is: the error is not inside a function literal) -/
+def errClean : List Mark → List CEv → Bool
+  | _, [] => true
+  | own, .enter m :: rest => errClean (m :: own) rest
+  | own, .leave :: rest => errClean own.tail rest
+  | own, .emit _ _ :: rest => errClean own rest
+  | own, .err :: _ => own.all (·.restored)
+
+def marksGuard (h : List (List CEv)) : Bool := h.all (fun evs => balancedFrom 0 evs && errClean [] evs)
+
+/-! ## Layer 4: generations of the globals array and the time a function is bound to one
+
+`vm.Run` (not the first) RELOADS the main code: a fresh `Globals` slice, the previous slice copied
+into it.  Then every function constant of the main code that is not loaded yet is loaded and
+shares the slice of THIS run for ever (`loadChildCode`).  So the run that first sees a function
+constant — the run of the piece that declares it — fixes the slice the function reads and
+writes; functions bound by the same run share one slice.  Globals are numbers, values integers;
+function bodies are assignments to globals followed by a returned expression. -/
+
+inductive FExpr where
+  | lit (v : Int)
+  | glob (g : Nat)
+  | arg
+  | add (a b : FExpr)
+  deriving Repr, DecidableEq, Inhabited
+
+structure FnDef where
+  body : List (Nat × FExpr)
+  ret  : FExpr
+  deriving Repr, DecidableEq, Inhabited
+
+inductive TExpr where
+  | lit (v : Int)
+  | glob (g : Nat)
+  | add (a b : TExpr)
+  | call (f : Nat) (a : TExpr)
+  deriving Repr, DecidableEq, Inhabited
+
+inductive TStmt where
+  | set (g : Nat) (e : TExpr)      -- `g := e` / `g = e` at top level
+  | defn (f : Nat) (d : FnDef)     -- `func f(p) { … }`
+  | expr (e : TExpr)
+  deriving Repr, DecidableEq, Inhabited
+
+/-- generation → global → value -/
+abbrev Gens := Nat → Nat → Int
+
+def Gens.put (G : Gens) (k g : Nat) (v : Int) : Gens :=
+  fun k' g' => if k' = k ∧ g' = g then v else G k' g'
+
+def FExpr.eval (σ : Nat → Int) (a : Int) : FExpr → Int
+  | .lit v => v
+  | .glob g => σ g
+  | .arg => a
+  | .add x y => x.eval σ a + y.eval σ a
+
+/-- a function body runs against generation `k` -/
+def runBody (k : Nat) (a : Int) : List (Nat × FExpr) → Gens → Gens
+  | [], G => G
+  | (g, e) :: rest, G => runBody k a rest (G.put k g (e.eval (G k) a))
+
+/-- what a run knows: the current generation, the function constants of the main code, and the
+    generation each loaded function is bound to -/
+structure BEnv where
+  cur  : Nat
+  defs : Nat → Option FnDef
+  bind : Nat → Option Nat
+
+def TExpr.eval (E : BEnv) : TExpr → Gens → Int × Gens
+  | .lit v, G => (v, G)
+  | .glob g, G => (G E.cur g, G)
+  | .add a b, G =>
+    let r1 := a.eval E G
+    let r2 := b.eval E r1.2
+    (r1.1 + r2.1, r2.2)
+  | .call f a, G =>
+    let r1 := a.eval E G
+    match E.defs f, E.bind f with
+    | some d, some k =>
+      let G2 := runBody k r1.1 d.body r1.2
+      (d.ret.eval (G2 k) r1.1, G2)
+    | _, _ => (0, r1.2)
+
+def TStmt.exec (E : BEnv) : TStmt → Gens → Option Int × Gens
+  | .set g e, G => let r := e.eval E G; (none, r.2.put E.cur g r.1)
+  | .defn _ _, G => (none, G)
+  | .expr e, G => let r := e.eval E G; (some r.1, r.2)
+
+/-- the statements of a piece in order; the piece's value is the value of its last statement -/
+def execPiece (E : BEnv) : List TStmt → Gens → Option Int → Option Int × Gens
+  | [], G, v => (v, G)
+  | s :: rest, G, _ => let r := s.exec E G; execPiece E rest r.2 r.1
+
+/-- compile time: every function declaration of the piece becomes a constant of the main code -/
+def addDefs (defs : Nat → Option FnDef) : List TStmt → Nat → Option FnDef
+  | [] => defs
+  | .defn f d :: rest => addDefs (fun x => if x = f then some d else defs x) rest
+  | _ :: rest => addDefs defs rest
+
+/-- control state of the VM between pieces (no values) -/
+structure BCtl where
+  cur     : Nat := 0
+  started : Bool := false
+  defs    : Nat → Option FnDef := fun _ => none
+  bind    : Nat → Option Nat := fun _ => none
+
+/-- runCodeInternal up to `eval`: reload (a new generation) unless this is the first run, then load
+    — bind to the current generation — every function constant that is not loaded yet -/
+def BCtl.next (c : BCtl) (l : List TStmt) : BCtl :=
+  let defs := addDefs c.defs l
+  let cur := if c.started then c.cur + 1 else c.cur
+  { cur := cur, started := true, defs := defs,
+    bind := fun f => match c.bind f with
+      | some k => some k
+      | none => (defs f).map fun _ => cur }
+
+def BCtl.env (c : BCtl) : BEnv := ⟨c.cur, c.defs, c.bind⟩
+
+/-- reloadCode: the new generation starts as a copy of the previous one -/
+def reloadGens (c : BCtl) (G : Gens) : Gens :=
+  if c.started then fun k g => if k = c.cur + 1 then G c.cur g else G k g else G
+
+/-- Impl: the pieces one by one; per piece its value -/
+def bindRun (c : BCtl) (G : Gens) : List (List TStmt) → List (Option Int) × BCtl × Gens
+  | [] => ([], c, G)
+  | l :: rest =>
+    let c1 := c.next l
+    let r := execPiece c1.env l (reloadGens c G) none
+    let rr := bindRun c1 r.2 rest
+    (r.1 :: rr.1, rr.2)
+
+/-- Spec: one globals array (generation 0) that everything reads and writes -/
+def specEnv (defs : Nat → Option FnDef) : BEnv := ⟨0, defs, fun f => (defs f).map fun _ => 0⟩
+
+def bindSpec (defs : Nat → Option FnDef) (S : Gens) : List (List TStmt) → List (Option Int) × (Nat → Option FnDef) × Gens
+  | [] => ([], defs, S)
+  | l :: rest =>
+    let d1 := addDefs defs l
+    let r := execPiece (specEnv d1) l S none
+    let rr := bindSpec d1 r.2 rest
+    (r.1 :: rr.1, rr.2)
+
+/-! ### the guard: every read goes to a generation that holds the up-to-date value -/
+
+/-- global → generation → "this generation's slot holds the global's up-to-date value" -/
+abbrev Valid := Nat → Nat → Bool
+
+def Valid.write (V : Valid) (g k : Nat) : Valid := fun g' k' => if g' = g then k' == k else V g' k'
+
+def FExpr.reads : FExpr → List Nat
+  | .lit _ => []
+  | .glob g => [g]
+  | .arg => []
+  | .add a b => a.reads ++ b.reads
+
+def okBody (k : Nat) : List (Nat × FExpr) → Valid → Option Valid
+  | [], V => some V
+  | (g, e) :: rest, V => if e.reads.all (fun x => V x k) then okBody k rest (V.write g k) else none
+
+def TExpr.ok (E : BEnv) : TExpr → Valid → Option Valid
+  | .lit _, V => some V
+  | .glob g, V => if V g E.cur then some V else none
+  | .add a b, V => (a.ok E V).bind (b.ok E)
+  | .call f a, V => (a.ok E V).bind fun V1 =>
+    match E.defs f, E.bind f with
+    | some d, some k => (okBody k d.body V1).bind fun V2 => if d.ret.reads.all (fun x => V2 x k) then some V2 else none
+    | some _, none => none
+    | none, _ => some V1
+
+def TStmt.ok (E : BEnv) : TStmt → Valid → Option Valid
+  | .set g e, V => (e.ok E V).map fun V1 => V1.write g E.cur
+  | .defn _ _, V => some V
+  | .expr e, V => e.ok E V
+
+def okPiece (E : BEnv) : List TStmt → Valid → Option Valid
+  | [], V => some V
+  | s :: rest, V => (s.ok E V).bind (okPiece E rest)
+
+def reloadValid (c : BCtl) (V : Valid) : Valid :=
+  if c.started then fun g k => if k = c.cur + 1 then V g c.cur else V g k else V
+
+/-- the validity bookkeeping after a history, `none` as soon as a read hits a stale slot -/
+def bindGuardFrom (c : BCtl) (V : Valid) : List (List TStmt) → Option (BCtl × Valid)
+  | [] => some (c, V)
+  | l :: rest =>
+    match okPiece (c.next l).env l (reloadValid c V) with
+    | some V1 => bindGuardFrom (c.next l) V1 rest
+    | none => none
+
+/-- the decidable guard of `binding_partial` -/
+def bindGuard (h : List (List TStmt)) : Bool := (bindGuardFrom {} (fun _ _ => true) h).isSome
+
+/-! ## Layer 5: the context of each piece and the VM's halt flag
+
+`vm.start` clears the halt flag and, when the context can be cancelled, starts a watcher that
+sets it when the context is done; `eval` looks at the flag before every instruction and returns
+`ctx.Err()` when it is set.  A piece whose run is ended by its context is a piece that fails at
+run time (its last statement is one that only the context can end); what the model adds is the
+FLAG that run leaves behind and the context of every later piece. -/
+
+inductive Ctx where
+  | background       -- context.Background(): Done() == nil, can never be cancelled
+  | cancellable      -- can be cancelled, is not done while the history runs
+  | done             -- is done before the piece's run ends (already cancelled, cancelled meanwhile, deadline)
+  deriving Repr, DecidableEq, Inhabited
+
+/-- `start` clears the halt flag unconditionally (not only when the context has a Done channel).
+    Tied to vm/vm.go by `Ties.lean`. -/
+def haltClearedForEveryContext : Bool := true
+
+def startClearsHalt (c : Ctx) : Bool := haltClearedForEveryContext || c != .background
+
+structure HRepl where
+  r    : Repl := {}
+  halt : Bool := false
+  deriving Repr, Inhabited
+
+/-- one call of the evaluator with the piece's own context -/
+def HRepl.feed (h : HRepl) (c : Ctx) (p : Piece) : HRepl × Outcome :=
+  let halt0 := if startClearsHalt c then false else h.halt
+  let (r1, o) := h.r.feed p
+  if halt0 then
+    -- eval returns ctx.Err() before the first instruction: the piece is compiled but nothing of it runs
+    match o with
+    | .parseRejected => ({ h with r := r1 }, o)
+    | .compileRejected => ({ h with r := r1 }, o)
+    | _ => ({ r := { comp := r1.comp, vm := h.r.vm }, halt := true }, .ok (h.r.vm.stack.headD 0))
+  else
+    match o with
+    | .parseRejected => ({ r := r1, halt := h.halt }, o)
+    | .compileRejected => ({ r := r1, halt := h.halt }, o)
+    | _ => ({ r := r1, halt := c == .done }, o)
+
+def HRepl.run (h : HRepl) : List (Ctx × Piece) → HRepl × List Outcome
+  | [] => (h, [])
+  | (c, p) :: ps =>
+    let (h1, o) := h.feed c p
+    let (h2, os) := HRepl.run h1 ps
+    (h2, o :: os)
 
 end Risor.C18
